@@ -41,9 +41,20 @@ Judge(e) ==
     [] e.op = "userflavor" ->
          LET full == TLCEval(Full(StackOf(e.stack), Enc(e.shape, e.value)))
              n == Len(e.calls)
-             good == /\ AlgsOK(e.stack) /\ e.status = "ok" /\ n >= 1 /\ e.calls[n] = <<"f">>
-                     /\ \A i \in 1..(n-1) : e.calls[i][1] \in {"p", "e"}
-                     /\ CatCalls(e.calls, 1) = full
+             writes(k) == \A i \in 1..k : e.calls[i][1] \in {"p", "e"}
+             fits == e.room < 0 \/ e.room >= Len(full)
+             good == IF ~AlgsOK(e.stack) THEN FALSE
+                     ELSE IF fits /\ e.fin_fail = 0 THEN
+                          \* exactly the bytes of Full, in order, through whichever methods; then finalize
+                          /\ e.status = "ok" /\ n >= 1 /\ e.calls[n] = <<"f">> /\ writes(n - 1) /\ CatCalls(e.calls, 1) = full
+                     ELSE IF fits THEN
+                          \* the user's finalize fails: all bytes delivered, the failure surfaces as an error (mapped to buffer-full)
+                          /\ e.status = "BufferFull" /\ n >= 1 /\ e.calls[n] = <<"f">> /\ writes(n - 1) /\ CatCalls(e.calls, 1) = full
+                     ELSE \* the flavour refuses a write: an error, a prefix delivered, nothing after the refusal, no finalize
+                          /\ e.status = "BufferFull" /\ n >= 1 /\ e.calls[n][1] = "x" /\ writes(n - 1)
+                          /\ LET got == CatCalls(e.calls, 1) IN
+                               /\ Len(got) <= e.room /\ Len(got) <= Len(full) /\ got = SubSeq(full, 1, Len(got))
+                               /\ Len(got) + e.calls[n][2] > e.room
          IN [ok |-> good, exp |-> [bad |-> IF good THEN <<>> ELSE <<"user">>, want |-> [sig |-> Sig(e.stack), full |-> full]]]
     [] OTHER -> [ok |-> FALSE, exp |-> [bad |-> <<"crash">>, want |-> "no action of the specification matches this event"]]
 
